@@ -1,0 +1,9 @@
+//go:build !verif
+
+package verifhook
+
+// Point marks a place where a goroutine may be descheduled by a simulator.
+func Point(site string, key any) {}
+
+// LockWait marks the place immediately before a long-held lock is acquired.
+func LockWait(site string, key any, lock any) {}
